@@ -97,3 +97,13 @@ def classify_c18(mode, st, recipe, plain_recipe, annotated, plain, clause):
     if _comment_on_zero_op(recipe):
         return "A17/comment-on-instruction-less-expression-keeps-a-block"
     return None
+
+
+def classify_c07(what, v):
+    """A8: ArrayElement.store_into has no bounds check of its own; an out-of-range index is only rejected when the
+    underlying extract/getbit happens to run past the end of the encoding."""
+    if "out-of-range" in what and v[3] == "verdict-class" and v[5].split("/")[0] in ("approve", "reject"):
+        if "bool[" in what.split(" ")[0]:
+            return "A8/bool-array-index-in-padding-bits-not-rejected"
+        return "A8/array-index-past-the-end-not-rejected"
+    return None
